@@ -21,6 +21,25 @@ pub enum Workload {
     Lines(Vec<String>),
     /// a script file that includes itself (the include-cycle probe)
     SelfInclude,
+    /// long haul: a loop builds a collection nested `n` levels deep (wrap 0 array in array, 1 map in map, 2 set in
+    /// set), then one command walks it (consumer 0 release -r, 1 json_encode --collection, 2 plain release,
+    /// 3 array_length / is_map / is_set); no event recording
+    Deep { n: u32, wrap: u8, consumer: u8 },
+}
+
+fn deep_text(n: u32, wrap: u8, consumer: u8) -> String {
+    let (first, step) = match wrap {
+        0 => ("cur = array leaf", "    cur = array ${cur}"),
+        1 => ("cur = map", "    nxt = map\n    map_put ${nxt} inner ${cur}\n    cur = set ${nxt}"),
+        _ => ("cur = set_new leaf", "    cur = set_new ${cur}"),
+    };
+    let tail = match consumer {
+        0 => "ok = release -r ${cur}",
+        1 => "js = json_encode --collection ${cur}",
+        2 => "ok = release ${cur}",
+        _ => "n1 = array_length ${cur}\nn2 = is_map ${cur}\nn3 = is_set ${cur}",
+    };
+    format!("{}\nr = range 0 {}\nfor i in ${{r}}\n{}\nend\nrelease ${{r}}\n{}\necho done\n", first, n, step, tail)
 }
 
 #[derive(Serialize, Deserialize, Clone, Debug, PartialEq)]
@@ -278,12 +297,25 @@ const ALPHABET: [&str; 40] = [
     "!include_files", "!print",
 ];
 
-fn gen_raw(rng: &mut Rng, deep_ok: bool) -> String {
+fn gen_raw(rng: &mut Rng, deep_ok: bool, deep_blocks_ok: bool) -> String {
     let mut s = String::new();
     // nesting depth of the input: up to 1500 always; far beyond only while the finding about unbounded recursion on
     // the nesting depth (conditions, calc) is not listed
     let depth = |rng: &mut Rng| if deep_ok && rng.chance(1, 3) { 20_000 + rng.usize(130_000) } else { 1 + rng.usize(1500) };
-    match rng.below(12) {
+    match rng.below(13) {
+        12 => {
+            // blocks nested in blocks (the block scanner looks for the end of every one)
+            let d = if deep_blocks_ok && rng.chance(1, 3) { 25_000 + rng.usize(40_000) } else { 1 + rng.usize(1200) };
+            let open = *rng.pick(&["if true", "if false", "for i in ${arr}", "while false"]);
+            for _ in 0..d {
+                s.push_str(open);
+                s.push('\n');
+            }
+            s.push_str("x = set inner\n");
+            for _ in 0..(d - rng.usize(2).min(d)) {
+                s.push_str("end\n");
+            }
+        }
         10 => {
             // deep parentheses in an arithmetic expression
             let d = depth(rng);
@@ -408,13 +440,24 @@ impl sim::Observer for EnvStub {
     }
 }
 
-fn wipe_jail() {
-    // safety: only ever wipe a directory that is provably this worker's private jail
+fn wipe_jail(chrooted: bool) {
+    // safety: only ever wipe a directory that is provably this worker's private jail: the root of a process that
+    // chrooted itself at start-up (it stays chrooted for life - the marker file is NOT asked for: a script can move
+    // or delete it, e.g. `mv . run/c07/x`, and a jail that is then never wiped again makes every later run of this
+    // worker depend on its predecessors), or a directory under /dev/shm/dsim.*
     let cwd = match std::env::current_dir() {
         Ok(c) => c,
-        Err(_) => return,
+        Err(_) => {
+            if chrooted {
+                let _ = std::env::set_current_dir("/");
+            }
+            match std::env::current_dir() {
+                Ok(c) => c,
+                Err(_) => return,
+            }
+        }
     };
-    let chroot_root = cwd == std::path::Path::new("/") && std::path::Path::new("/.dsim-jail").exists();
+    let chroot_root = chrooted && cwd == std::path::Path::new("/");
     let private_dir = cwd.to_string_lossy().starts_with("/dev/shm/dsim.");
     if !chroot_root && !private_dir {
         return;
@@ -422,16 +465,19 @@ fn wipe_jail() {
     if let Ok(rd) = std::fs::read_dir(".") {
         for e in rd.flatten() {
             let p = e.path();
-            if p.file_name().map(|n| n == ".dsim-jail").unwrap_or(false) {
+            let is_dir = std::fs::symlink_metadata(&p).map(|m| m.is_dir()).unwrap_or(false);
+            if !is_dir && p.file_name().map(|n| n == ".dsim-jail").unwrap_or(false) {
                 continue;
             }
-            let is_dir = std::fs::symlink_metadata(&p).map(|m| m.is_dir()).unwrap_or(false);
             if is_dir {
                 let _ = std::fs::remove_dir_all(&p);
             } else {
                 let _ = std::fs::remove_file(&p);
             }
         }
+    }
+    if !std::path::Path::new(".dsim-jail").exists() {
+        let _ = std::fs::write(".dsim-jail", b"");
     }
 }
 
@@ -442,7 +488,7 @@ fn run_case(case: &Case, env: &WorkerEnv) -> Verdict {
     // the working directory is the root of this worker's private jail: wipe all of it, since earlier runs
     // may have created entries anywhere below it through relative paths
     sim::phase("harness: wiping the jail");
-    wipe_jail();
+    wipe_jail(env.chrooted);
     sim::phase("harness: preparing the run");
     let _ = std::fs::create_dir_all("run/c07");
     sim::reset(Some(Box::new(EnvStub)));
@@ -504,13 +550,22 @@ fn run_case(case: &Case, env: &WorkerEnv) -> Verdict {
             }
             res
         }
+        Workload::Deep { n, wrap, consumer } => {
+            sim::with_core(|c| {
+                c.quiet = true;
+                c.budget = 50_000_000;
+                c.probe("deeply-nested-collection");
+            });
+            sim::phase("long haul: deep collection");
+            runner::run_script(&deep_text(*n, *wrap, *consumer), context, Some(renv)).map(|_| ())
+        }
         Workload::SelfInclude => {
             let _ = std::fs::write("run/c07/self.ds", "echo before\n!include_files self.ds\necho after\n");
             sim::with_core(|c| c.probe("include-cycle"));
             runner::run_script_file("run/c07/self.ds", context, Some(renv)).map(|_| ())
         }
     }));
-    wipe_jail();
+    wipe_jail(env.chrooted);
     match result {
         Err(_) => {
             let p = sim::take_panic().unwrap_or_default();
@@ -571,7 +626,17 @@ impl Prop for C07 {
     fn generate(&self, rng: &mut Rng, avoid: &[String]) -> Value {
         let workload = match rng.below(400) {
             0 if !avoid.iter().any(|a| a == "include_cycle") => Workload::SelfInclude,
-            1..=99 => Workload::Raw(gen_raw(rng, !avoid.iter().any(|a| a == "deep_nesting"))),
+            // (about four per quick run; the encoder is left out while its finding is listed)
+            399 if rng.chance(1, 40) => {
+                let consumer = loop {
+                    let c = rng.below(4) as u8;
+                    if !(c == 1 && avoid.iter().any(|a| a == "deep_data_json_encode")) {
+                        break c;
+                    }
+                };
+                Workload::Deep { n: 30_000 + rng.below(50_000) as u32, wrap: rng.below(3) as u8, consumer }
+            }
+            1..=99 => Workload::Raw(gen_raw(rng, !avoid.iter().any(|a| a == "deep_nesting"), !avoid.iter().any(|a| a == "deep_block_nesting"))),
             _ => Workload::Lines(gen_lines(rng, avoid)),
         };
         let write_faults = if rng.chance(1, 2) {
@@ -720,6 +785,15 @@ impl Prop for C07 {
                 }
             }
             Workload::SelfInclude => {}
+            Workload::Deep { n, wrap, consumer } => {
+                for m in [*n / 2, *n * 3 / 4] {
+                    if m >= 500 {
+                        let mut c = case.clone();
+                        c.workload = Workload::Deep { n: m, wrap: *wrap, consumer: *consumer };
+                        out.push(c);
+                    }
+                }
+            }
         }
         if case.entropy != 0 {
             let mut c = case.clone();
@@ -758,6 +832,16 @@ impl Prop for C07 {
                         _ => false,
                     }
             }
+            // thousands of blocks nested in each other
+            "deep_block_nesting" => {
+                (class.starts_with("abort:") || class == "hang:native")
+                    && match &case.workload {
+                        Workload::Raw(t) => t.lines().filter(|l| l.starts_with("if ") || l.starts_with("for ") || l.starts_with("while ")).count() > 3000,
+                        _ => false,
+                    }
+            }
+            // a collection nested tens of thousands of levels deep handed to the JSON encoder
+            "deep_data_json_encode" => class.starts_with("abort:") && matches!(case.workload, Workload::Deep { consumer: 1, .. }),
             // the nesting depth of the input is the recursion depth of the condition evaluator and of calc's parser
             "deep_nesting" => {
                 class.starts_with("abort:")
